@@ -270,6 +270,7 @@ def run(chk: Check, only_numeric: bool = False) -> None:
         run_inplace(chk, ix, funcs, sites)
         run_coerce(chk, ix)
         run_env_link(chk, ix)
+        run_defaults_chain(chk, ix)
         pass_order(chk, ix)
 
 
@@ -486,3 +487,55 @@ def run_env_link(chk: Check, ix) -> None:
             r6.violation(key, f.loc(c), "; ".join(bad))
         else:
             r6.ok(key, f.loc(c), "guard: " + (" and ".join(norm(t) for t in extra_pos) or "none"))
+
+
+def run_defaults_chain(chk: Check, ix) -> None:
+    """R05.8: the defaults-setup chain finds the nearest ancestor that has one, however far up."""
+    from ..cfg import branch_conditions, call_name
+    r8 = chk.rule("R05.8", "under separate compilation __mypyc_defaults_setup is registered (prepare.py) only on classes whose own body assigns defaults, so an intermediate class may have none; generate_attr_defaults_init therefore looks for the method to chain to among all ancestors (a loop over cls.mro[1:] / base_mro[1:], first hit wins), not only at the direct base: otherwise the defaults of a grandparent are never set on instances of a class whose parent has no defaults of its own (reading the attribute raises AttributeError where CPython finds the class attribute)", floor=3)
+    prep = ix.module("mypyc.irbuild.prepare")
+    reg_calls = []
+    for f in ix.functions.values():
+        if f.module is prep:
+            for c in ast.walk(f.node):
+                if isinstance(c, ast.Call) and call_name(c) == "_register_defaults_setup_decl":
+                    reg_calls.append((f, c))
+    if not reg_calls:
+        raise AnalysisError("prepare.py: _register_defaults_setup_decl is never called")
+    own_only = True
+    for f, c in reg_calls:
+        par = f.module.parents()
+        st = c
+        while not isinstance(st, ast.stmt):
+            st = par[st]
+        pos, _ = branch_conditions(par, f.node, st)
+        if any(isinstance(x, ast.Call) and call_name(x) == "_has_own_default_attrs" for t in pos for x in ast.walk(t)):
+            r8.ok("the setup declaration is registered per class, on a test of the class's own body", f.loc(c))
+        else:
+            own_only = False
+            r8.info("the setup declaration is no longer registered on an own-body test", f.loc(c), "the chain lookup requirement below may not apply")
+    hf = prep.functions.get("_has_own_default_attrs")
+    if hf is None:
+        raise AnalysisError("prepare._has_own_default_attrs vanished")
+    if any(isinstance(a, ast.Attribute) and a.attr in ("mro", "base_mro", "base") for a in ast.walk(hf.node)):
+        own_only = False
+        r8.info("_has_own_default_attrs consults the ancestors", hf.loc(), "the chain lookup requirement below may not apply")
+    else:
+        r8.ok("_has_own_default_attrs looks at the class's own statements only (no mro / base)", hf.loc())
+    g = ix.func("mypyc.irbuild.classdef.generate_attr_defaults_init")
+    asg = [a for a in ast.walk(g.node) if isinstance(a, ast.Assign) and len(a.targets) == 1 and norm(a.targets[0]) == "parent_with_defaults" and not (isinstance(a.value, ast.Constant) and a.value.value is None)]
+    if not asg:
+        raise AnalysisError("generate_attr_defaults_init: the ancestor to chain to is never assigned")
+    par = g.module.parents()
+    key = "the ancestor to chain to is searched in the whole mro"
+    for a in asg:
+        lp = par.get(a)
+        while lp is not None and not isinstance(lp, (ast.For, ast.FunctionDef)):
+            lp = par.get(lp)
+        it = norm(lp.iter) if isinstance(lp, ast.For) else None
+        if it is not None and (".mro[1:]" in it or ".base_mro[1:]" in it) and any(isinstance(b, ast.Break) for b in ast.walk(lp)):
+            r8.ok(key, g.loc(a), f"for ... in {it}: first ancestor with the declaration, then break")
+        elif not own_only:
+            r8.ok(key, g.loc(a), "registration is not own-body only any more; lookup shape not required")
+        else:
+            r8.violation(key, g.loc(a), f"`{norm(a)}` is not inside a loop over cls.mro[1:] that stops at the first hit ({'loop over ' + it if it else 'no loop'}): with `class A: x = 1`, `class B(A): pass`, `class C(B): y = 2` compiled separately, C's setup finds no declaration on B and never runs A's, so C().x is unset")
